@@ -158,6 +158,7 @@ func runOne(t *testing.T, prop, tier string, seed uint64, sim Sim, c interface{}
 			}
 			wt.VerifFlock = nil
 			wt.VerifSpawn = nil
+			wt.VerifHeld = nil
 			wt.Now = time.Now
 			defer Uninstall()
 			sim.Run(e, c)
